@@ -243,6 +243,9 @@ def generate(seed, tier):
             text = text[:r.randint(100, 3000)]
         text = text.replace('\ufeff', '')
         at = r.randint(0, len(text))
+        if r.random() < 0.3:
+            # the very first / second / last character: where encoding detection and the end of input are decided
+            at = r.choice([0, 0, 0, 1, len(text), max(0, len(text) - 1)])
         if r.random() < 0.5:
             defect = {'kind': 'nonprintable', 'char': r.choice(NONPRINT), 'at': at}
             if r.random() < 0.35:
